@@ -38,6 +38,31 @@ func strlcp(a, b string) string {
 	return a[0:minlen]
 }
 
+// quoteWorkingDirectory escapes the glob meta characters in that part of the
+// absolute pattern abs which is an ancestor of (or is) the working directory.
+func quoteWorkingDirectory(abs string) (string, error) {
+	wd, err := os.Getwd()
+	if err != nil {
+		return "", err
+	}
+	wd = filepath.ToSlash(wd)
+	for wd != "/" && wd != "." && !strings.HasPrefix(abs+"/", strings.TrimSuffix(wd, "/")+"/") {
+		wd = filepath.ToSlash(filepath.Dir(wd))
+	}
+	if wd == "/" || wd == "." {
+		return abs, nil
+	}
+	wd = strings.TrimSuffix(wd, "/")
+	var quoted strings.Builder
+	for i := 0; i < len(wd); i++ {
+		if strings.IndexByte(`\*?[]{}`, wd[i]) >= 0 {
+			quoted.WriteByte('\\')
+		}
+		quoted.WriteByte(wd[i])
+	}
+	return quoted.String() + abs[len(wd):], nil
+}
+
 // ErrGlobNoMatch happens when no files matched the given glob.
 type ErrGlobNoMatch struct {
 	glob string
@@ -56,12 +81,25 @@ func Glob(pattern, dst string, ignoreMatchers bool) (map[string]string, error) {
 		options = append(options, fileglob.QuoteMeta)
 	}
 
+	// literal is the path the pattern names when it contains no matchers
+	literal := pattern
 	if strings.HasPrefix(pattern, "../") {
 		p, err := filepath.Abs(pattern)
 		if err != nil {
 			return nil, fmt.Errorf("failed to resolve pattern: %s: %w", pattern, err)
 		}
 		pattern = filepath.ToSlash(p)
+		literal = pattern
+		if !ignoreMatchers {
+			// only what was written is a pattern: the working directory the
+			// pattern is resolved against is a literal path, whatever
+			// characters its name contains
+			quoted, err := quoteWorkingDirectory(pattern)
+			if err != nil {
+				return nil, fmt.Errorf("failed to resolve pattern: %s: %w", pattern, err)
+			}
+			pattern = quoted
+		}
 	}
 
 	matches, err := fileglob.Glob(pattern, append(options, fileglob.MaybeRootFS)...)
@@ -78,7 +116,7 @@ func Glob(pattern, dst string, ignoreMatchers bool) (map[string]string, error) {
 	}
 
 	files := make(map[string]string)
-	prefix := pattern
+	prefix := literal
 	// the prefix may not be a complete path or may use glob patterns, in that case use the parent directory
 	if _, err := os.Stat(prefix); errors.Is(err, fs.ErrNotExist) || (fileglob.ContainsMatchers(pattern) && !ignoreMatchers) {
 		prefix = filepath.Dir(longestCommonPrefix(matches))
